@@ -167,6 +167,12 @@ def check_frame(col, scratch, kind, elems, ids, label, dask_too=True, deep=True,
                 viol("intersects.inert_true", f"shape {sk}: inert points intersect: {r.tolist()}")
             if (r[valid_pos] != np.asarray(ref.intersects(shp))).any():
                 viol("intersects.valid_rows", f"shape {sk}: valid rows changed")
+            # the same question for a list of positions that names inert rows too
+            iv = np.array(list(range(len(ids)))[::-1] + inert_pos, dtype=np.int64)
+            ri = np.asarray(arr.intersects(shp, iv))
+            col.count("evaluations")
+            if ri.shape != iv.shape or (ri != r[iv]).any():
+                viol("intersects.inds", f"shape {sk}: intersects(shape, inds={iv.tolist()}) = {ri.tolist()} but intersects(shape)[inds] = {r[iv].tolist()}")
     # ---- hilbert distance (explicit and default bounds)
     try:
         hb = (-1.0, -1.0, 7.0, 7.0)
@@ -258,6 +264,21 @@ def check_frame(col, scratch, kind, elems, ids, label, dask_too=True, deep=True,
                 col.count("evaluations")
                 if got != want:
                     viol("dask.cx", f"npartitions {k} box {bx}: dask cx selects {got}, without inert rows {want}")
+            if k >= 2 and (len(ids) + k) % 2 == 0:
+                # written and read back: the stored partition bounds of partitions made only of inert rows
+                w = os.path.join(scratch, f"c17p-{os.getpid()}")
+                shutil.rmtree(w, ignore_errors=True)
+                ddf.to_parquet(w)
+                rb = read_parquet_dask(w)
+                col.count("evaluations", 1 + 4)
+                if not eqf(rb.geometry.total_bounds, ref.total_bounds if len(valid_pos) else (np.nan,) * 4):
+                    viol("dask.parquet.total_bounds", f"npartitions {k}: after a parquet round trip {rb.geometry.total_bounds} vs {ref.total_bounds}")
+                for bx in BOXES[:4]:
+                    got = rb.cx[bx[0]:bx[2], bx[1]:bx[3]].compute(scheduler=S)["val"].tolist()
+                    want = df_ref.cx[bx[0]:bx[2], bx[1]:bx[3]]["val"].tolist()
+                    if got != want:
+                        viol("dask.parquet.cx", f"npartitions {k} box {bx}: after a parquet round trip cx selects {got}, without inert rows {want}")
+                shutil.rmtree(w, ignore_errors=True)
         except Exception as ex:
             viol("dask.raises", f"npartitions {k}: {type(ex).__name__}: {str(ex)[:200]}")
     if not deep:
